@@ -15,7 +15,29 @@ spec:      spec/PkgRelation.tla        structures (conjunction of alternatives o
                                        stops after 256 separators, re.split(pattern, text, 256): the seeded change
                                        C13-seedJ) -> CountProps at 258 items, while LimitBites (the invariants hold
                                        exactly up to 257 items) holds
-           spec/TracePkgRelation.tla   trace validation re-using Format / Parse
+           spec/PkgRelationEdit.tla    structures obtained by EDITING a parse result IN PLACE: the result of parse_relations
+                                       is a tree of mutable objects (result list, conjunct lists, dicts, the arch list,
+                                       the restrictions list, its group lists), each with its own mutators.  State: the
+                                       structure the caller holds, the edit history, and -- under the formatter -- a
+                                       layer that remembers text per dict (from the parse / from every format call)
+                                       and forgets it in the mutators of the levels in Forgets.  One action per
+                                       mutator call (append / insert / del / item assignment -- also the negated twin of
+                                       the namedtuple that is there -- / reverse / key assignment) on every container at
+                                       every nesting level, each followed by a format call; EditProps = Inverse,
+                                       NoWarning, Stable, well-formed tokens for what the caller holds after EVERY
+                                       history, and the layer is invisible (text = Format(cur)).  The edit records and
+                                       their value semantics (EditOk / ApplyEdit / EditTrail) live in PkgRelation.tla and
+                                       are re-used by the trace module.  Quick: all histories of <= 2 edits of the parse
+                                       of a one-atom relation with every optional part, of 1 edit of a three-atom
+                                       relation (2747 states); thorough: <= 2 edits of both, <= 3 edits of the parse
+                                       of a bare name (nested lists come in by key assignment / inserted atoms and are
+                                       edited afterwards).  Negative controls: Remember = parse, Forgets = {key} (only
+                                       the dict's own mutators forget: the seeded change C13-seedK) -> EditProps after
+                                       ONE nested edit; Remember = format, Forgets = {key}, start = bare name ->
+                                       EditProps only after two edits; thorough also Forgets = {key, arch, groups}
+                                       (groups inside the formula unwatched) and the layer that forgets at every
+                                       level, which must HOLD (MC_PkgRelationEdit_layer.cfg)
+           spec/TracePkgRelation.tla   trace validation re-using Format / Parse / EditTrail
 model checking (closed): one focus atom ranging over ALL 3612 combinations of the optional parts
            (2 x {none, 5 operators} x arch lists of 1..2 plain/negated entries x formulas of 1..2
            groups of 1..2 plain/negated terms) at every position of every list shape (quick: 1..2
@@ -37,12 +59,24 @@ binding:   (a) every CASE line of TLC (the structure and its expected token stri
                parse_relations(str(r)) == r, no warning, str(parse(...)) == first string;
                the CASE lines of PkgRelationCount (long lists) go exactly the same way, each with the
                history, the container variants and the relations property;
+               the CASE lines of PkgRelationEdit (start relation, edit history, TLC's structure after every edit) are
+               replayed as histories: str(start), parse_relations, then every edit is ONE call of the real mutator on
+               the PARSED objects (spelling rotates: append / += / extend / insert at the end; del / pop / empty
+               slice / remove; item / slice assignment / _replace; d[k] = v / update / pop + re-insert), and after
+               every edit (or only after the last: alternating) str / parse_relations / str of what the caller now
+               holds: the live object == TLC's structure (ApplyEdit), the parse == TLC's structure, no warning, same
+               string again; every other format call is preceded by one on a faulting twin (see below);
            (b) random deeper structures (<= 5 conjuncts x 4 alternatives, 3 arch entries, 3 groups
                x 3 terms) go through the real str / parse_relations / str; the event logs the
                structure, the produced strings as token codes (independent tokenizer below) and the
                parsed-back structure; TLC (TracePkgRelation) must explain the parse with Parse and
                find Inverse / NoWarning / Stable.  Stdlib random seeded from VERIF_SEED is used
                instead of hypothesis (one generator, deterministic per seed).
+               Every recorded execution ends with step 7: the first string is parsed once more, 1 .. 4 random
+               applicable edits (any container, any level, new and identical payloads, negated twins) are applied to
+               that structure through the real mutators, and it is formatted / parsed / formatted; the trace carries
+               the edit records, the abstracted live object and the results; TLC derives the edited structure with
+               EditTrail from the parse of step 2 and requires live = e, Parse(string) = parse = e, no warning, stable.
 history:   spec/PkgRelationMemo.tla models a memo layer between caller and reference parser with
            object identity for the nested lists (heap cells), actions ParseCall / CallerMutates /
            CallerReplaces and the invariant MemoTransparent (every Parse result equals the
@@ -63,8 +97,24 @@ public entry points (notes/API_SURFACE.md) -> where they are exercised:
   PkgRelation.str(rels) / str(rels=rels) /     staticmethod: positional,   replay + trace (rotating), every str of
     PkgRelation().str(rels)                    keyword, through instance   the history and the relations leg
   input of str: list of lists of dicts         key order (120), list/tuple/plain-tuple containers, structures
-                                               returned by parse_relations (also re-keyed / edited), by
-                                               the relations property
+                                               returned by parse_relations (also re-keyed), by the relations property;
+                                               structures returned by parse_relations and then EDITED IN PLACE at every
+                                               nesting level (PkgRelationEdit: in the domain -- "all relation
+                                               structures", however the caller came by them): replay of every edit
+                                               history of TLC + step 7 of every recorded execution
+  caller-supplied objects that FAIL            (notes/SIZE_STRESS.md part 5) PkgRelation.str(faulting twin of r): the
+                                               result list / a conjunct (list subclass whose iteration raises at the
+                                               first / a middle / the last item / its end) or a dict (the n-th lookup
+                                               raises), CallerFault / OSError / ValueError / KeyError; Cls(f) and
+                                               Cls.iter_paragraphs(f) with a generator of str / bytes lines that raises,
+                                               a bytes file whose read methods raise at one call, an early EOF inside
+                                               the relation field.  The faulted call has NO verdict (the statement is
+                                               silent; outcomes counted: faulted_* in the diagnostics); in the model
+                                               Format / Parse are functions, a failed call is a stuttering step, so the
+                                               ordinary calls that FOLLOW (str of the same r, the relations property
+                                               of the same text, the rest of the history) keep their verdicts: every
+                                               3rd replayed case, every other format of an edit history, every 3rd
+                                               relations leg, every other recorded edit leg
   Packages(...).relations[f]                   10 fields   } VERDICT for a paragraph not modified since
   Sources(...).relations[f]                    7 fields    } construction (mixin_leg): == r, no warning, str of it
   BuildInfo(...).relations[f]                  1 field     } == the string, absent fields [], two live objects
@@ -117,7 +167,8 @@ counts:    the length of EVERY list level is part of the domain ("a conjunction 
            with 258 / 259 / 300 and one with 1000 / 1024 / 1025 items (thorough: 255 .. 259, 300, 512
            and one of the thousands) at a random position, which TLC validates like any other trace.
 verdict observables: parse_relations(str(r)) == r (TLC: Inverse), no warning (NoWarning), second
-           string == first string (Stable), for every call of a history (MemoTransparent); any
+           string == first string (Stable), for every call of a history (MemoTransparent) and for the structure
+           the caller holds after every in-place edit (EditProps; the structure itself == ApplyEdit); any
            exception.
 diagnostic (drift, never an alarm): the produced string differs from the token string predicted by
            Format (blank details of the formatter), namedtuple types of the parsed entries, and "probe"
@@ -141,9 +192,9 @@ import core
 import fileforms_c13 as ff
 
 MANIFEST = dict(
-    technique="TLA+ specs PkgRelation + PkgRelationMemo (formatter as token sequence, the dependency regex as an automaton over token kinds with its optional groups in fixed order, the comma/pipe/blank/restriction splitters) model-checked by TLC over the closed space of all optional-part combinations x list shapes; every TLC case replayed into PkgRelation.str/parse_relations with concretized payloads; recorded executions on deeper random structures validated by TLC (TracePkgRelation); a memo layer with shared nested lists as history model, histories with in-place edits of returned structures replayed and recorded; a count module (PkgRelationCount) with one long list per structure at each of the five list levels of the grammar",
+    technique="TLA+ specs PkgRelation + PkgRelationMemo (formatter as token sequence, the dependency regex as an automaton over token kinds with its optional groups in fixed order, the comma/pipe/blank/restriction splitters) model-checked by TLC over the closed space of all optional-part combinations x list shapes; every TLC case replayed into PkgRelation.str/parse_relations with concretized payloads; recorded executions on deeper random structures validated by TLC (TracePkgRelation); a memo layer with shared nested lists as history model, histories with in-place edits of returned structures replayed and recorded; a count module (PkgRelationCount) with one long list per structure at each of the five list levels of the grammar; an edit module (PkgRelationEdit) enumerating the histories of in-place mutator calls on a parse result at every nesting level, with a text-remembering layer under the formatter as negative control",
     text="TLC enumerates every relation made of one focus atom -- all 3612 combinations of architecture qualifier, version constraint with each of the five operators, architecture lists of 1-2 plain or negated entries and restriction formulas of 1-2 groups of 1-2 plain or negated terms -- at every position of every list shape up to 3 conjuncts of 2 alternatives, surrounded by context atoms, and checks in each state Parse(Format(r)) = r, that the parser's warning fallback is never taken and Format(Parse(Format(r))) = Format(r); Parse is the one big regex written as an automaton over token kinds (name, qualifier, operator, version, arch, '!', profile, brackets, separators, blanks) with exactly the blank tolerance of the code. Each enumerated structure carries TLC's expected token string and is replayed into the real PkgRelation.str / parse_relations with package names over [a-z0-9+.-], versions with epoch, '~', '+' and hyphenated revisions, real architecture names, qualifiers and lower-case profile names: the parse must equal the structure exactly, without a warning, and formatting again must give the same string. In the other direction random deeper structures (5x4 atoms, 3 arch entries, 3x3 restriction terms) are formatted and parsed by the real code, the strings are tokenized independently and TLC must explain the parsed-back structure with Parse and find it equal to the input. The quick tier enumerates lists of up to 2 atoms (one alternative, two alternatives, two conjuncts) with bare-name context atoms (18 058 structures), the thorough tier up to 3 x 2 with bare and fully-equipped context atoms (368 350 structures).",
-    note="Characters inside a payload token are sampled, not enumerated; profile names are lower case (DESIGN D3: the parser lower-cases them). The exact blanks written by the formatter are diagnostic only (drift). Trusted: TLC, the concretizer, the small context-sensitive tokenizer used for the recorded strings (a wrong tokenization is rejected by TLC, never accepted). A diagnostic leg (never an alarm) feeds strings with randomly changed blanks to the real parser and lets TLC predict the outcome, warning path included. The round trip is also checked as a history: a small TLA+ model of a memo layer with object identity (PkgRelationMemo) states that no earlier call or caller-side edit may influence Parse; after every replayed case and every recorded execution the returned structure is edited in place, the same string is parsed twice more and a relation sharing an alternative makes the round trip, under the same verdicts. Input dicts are built with all 120 key insertion orders, tuple / plain-tuple containers and size-stressed payloads (boundary lengths up to 8193 characters, epochs up to 19 digits). The length of every list level is a dimension of its own: a second TLA+ module (PkgRelationCount) states the same invariants for structures in which the conjunction, the alternatives of a conjunct, an architecture list, the groups of a restriction formula or the terms of a group have 256, 257, 258, 300 and 1000 items (thorough: 22 counts up to 2049), each replayed like any other case; ordinary cases are repeated to such counts and recorded executions with 255 - 1025 items per level are validated by TLC. The relations property is read from paragraphs built from str, bytes, lists, dicts and from fourteen kinds of file object / line source (real files buffered and unbuffered, short-read streams, gzip / bz2 / lzma wrappers, spooled files, generators) through the constructor and iter_paragraphs, a third of them with a line end or a separator of the value placed on a block boundary (2**9 .. 2**17, -2 .. +1). Eight spec-level negative controls (six in the quick tier; thirteen TLC runs in the thorough tier) and the corrupted control traces are required to fail in every run.",
+    note="Characters inside a payload token are sampled, not enumerated; profile names are lower case (DESIGN D3: the parser lower-cases them). The exact blanks written by the formatter are diagnostic only (drift). Trusted: TLC, the concretizer, the small context-sensitive tokenizer used for the recorded strings (a wrong tokenization is rejected by TLC, never accepted). A diagnostic leg (never an alarm) feeds strings with randomly changed blanks to the real parser and lets TLC predict the outcome, warning path included. The round trip is also checked as a history: a small TLA+ model of a memo layer with object identity (PkgRelationMemo) states that no earlier call or caller-side edit may influence Parse; after every replayed case and every recorded execution the returned structure is edited in place, the same string is parsed twice more and a relation sharing an alternative makes the round trip, under the same verdicts. Input dicts are built with all 120 key insertion orders, tuple / plain-tuple containers and size-stressed payloads (boundary lengths up to 8193 characters, epochs up to 19 digits). The length of every list level is a dimension of its own: a second TLA+ module (PkgRelationCount) states the same invariants for structures in which the conjunction, the alternatives of a conjunct, an architecture list, the groups of a restriction formula or the terms of a group have 256, 257, 258, 300 and 1000 items (thorough: 22 counts up to 2049), each replayed like any other case; ordinary cases are repeated to such counts and recorded executions with 255 - 1025 items per level are validated by TLC. The relations property is read from paragraphs built from str, bytes, lists, dicts and from fourteen kinds of file object / line source (real files buffered and unbuffered, short-read streams, gzip / bz2 / lzma wrappers, spooled files, generators) through the constructor and iter_paragraphs, a third of them with a line end or a separator of the value placed on a block boundary (2**9 .. 2**17, -2 .. +1). Structures obtained by editing a parse result in place are a TLA+ module of their own (PkgRelationEdit): every history of up to two (thorough: three) mutator calls -- append, insert, delete, item assignment, negated twin of a namedtuple, reverse, key assignment -- on every container at every nesting level of the parsed tree is enumerated by TLC with the structure the caller then holds, replayed through the real list / dict methods (several spellings per mutator) and judged by the same invariants after every edit; recorded executions end with random edits whose result TLC re-derives (EditTrail). A layer that remembers text per dict and forgets it only in the dict's own mutators is the negative control. Format calls on faulting twins of the caller's containers and paragraph constructions from failing line sources precede ordinary calls, which keep their verdicts. Eleven spec-level negative controls (eight in the quick tier; seventeen TLC runs in the thorough tier) and the corrupted control traces are required to fail in every run.",
     design="5 (C13)")
 
 OPS = ["<<", "<=", "=", ">=", ">>"]
@@ -621,11 +672,155 @@ def call_parse(text, api=0):
     return PkgRelation().parse_relations(text)
 
 
-def run_real(r_py, api=0):
+# ---- faults of caller-supplied objects (notes/SIZE_STRESS.md part 5).  PkgRelation.str takes the caller's
+# containers, the paragraph classes behind `relations` take the caller's file object / line iterator.  A faulting
+# twin fails at one step (first / middle / last); the statement says nothing about such a call (its outcome is
+# counted: the caller's exception should come out), in the model Format / Parse are functions and the failed call
+# is a stuttering step -- so the ORDINARY calls that follow on the same objects, in the same process, keep their
+# verdicts.  That is where a formatter / reader that kept half of the failed work shows.
+class CallerFault(Exception):
+    pass
+
+
+FAULT_EXCS = (CallerFault, OSError, ValueError, KeyError)
+
+
+class FaultyList(list):
+    """the caller's list; iterating it raises after `at` items (negative: counted from the end)"""
+    fault_at, fault_exc = 0, CallerFault
+
+    def __iter__(self):
+        at = self.fault_at if self.fault_at >= 0 else max(len(self) + self.fault_at, 0)
+        for n, x in enumerate(list.__iter__(self)):
+            if n == at:
+                raise self.fault_exc("the caller's list fails at item %d" % n)
+            yield x
+        if at >= len(self):
+            raise self.fault_exc("the caller's list fails at its end")
+
+
+class FaultyDict(dict):
+    """the caller's dict; the `at`-th lookup (get / []) raises"""
+    fault_at, fault_exc, _n = 0, CallerFault, 0
+
+    def _tick(self):
+        self._n += 1
+        if self._n - 1 == self.fault_at:
+            raise self.fault_exc("the caller's dict fails at lookup %d" % (self._n - 1))
+
+    def get(self, *a):
+        self._tick()
+        return dict.get(self, *a)
+
+    def __getitem__(self, k):
+        self._tick()
+        return dict.__getitem__(self, k)
+
+
+def faulted_str(r_py, k, diag):
+    """PkgRelation.str with a faulting twin of the caller's structure: the result list, one conjunct or one dict fails
+    at the first / a middle / the last step or at its end (the objects inside are the caller's own, shared with r_py)"""
+    k = zlib.crc32(b"fault %d" % k)
+    exc = FAULT_EXCS[k % len(FAULT_EXCS)]
+    at = (0, 1, -1, 2)[(k >> 2) % 4]
+    where = (k >> 4) % 3
+    try:
+        if where == 0 or not r_py:
+            twin = FaultyList(r_py)
+            twin.fault_at, twin.fault_exc = at, exc
+        else:
+            twin = list(r_py)
+            i = (k >> 6) % len(twin)
+            if where == 1 or not twin[i]:
+                twin[i] = FaultyList(twin[i])
+            else:
+                twin[i] = list(twin[i])
+                j = (k >> 8) % len(twin[i])
+                twin[i][j] = FaultyDict(twin[i][j])
+                twin[i][j].fault_at, twin[i][j].fault_exc = abs(at) + (k >> 10) % 4, exc
+            if isinstance(twin[i], FaultyList):
+                twin[i].fault_at, twin[i].fault_exc = at, exc
+        with warnings.catch_warnings(record=True):
+            warnings.simplefilter("always")
+            call_str(twin, k)
+        key = "faulted_str_returned_normally"
+    except exc:
+        key = "faulted_str_raised_the_caller's_exception"
+    except Exception as e:       # noqa: BLE001 -- counted, no verdict
+        key = "faulted_str_raised_" + type(e).__name__
+    if diag is not None:
+        diag[key] = diag.get(key, 0) + 1
+    return "%s failing with %s at step %d: %s" % (("the result list", "a conjunct", "a dict")[where], exc.__name__, at, key)
+
+
+def faulted_paragraph(cls_name, field, value, k, diag):
+    """Cls(f) / Cls.iter_paragraphs(f) with a faulting twin of the caller's line source: a generator of lines (str /
+    bytes) that raises after some lines, a bytes file whose read methods raise at one call, an early EOF inside
+    the relation field"""
+    import io
+    import debian.deb822 as m
+    cls = getattr(m, cls_name)
+    exc = FAULT_EXCS[k % len(FAULT_EXCS)]
+    text = "Package: zz\nX-Pad: %s\n%s: %s\nX-Last: 1\n" % ("p" * (k % 97), field, value)
+    lines = text.split("\n")[:-1]
+    at = (0, 2, len(lines) - 1, len(lines))[(k >> 2) % 4]
+    kind = (k >> 4) % 4
+
+    def gen(as_bytes):
+        for n, line in enumerate(lines):
+            if n == at:
+                raise exc("the caller's line source fails at line %d" % n)
+            yield (line + "\n").encode("utf-8") if as_bytes else line + "\n"
+        raise exc("the caller's line source fails at its end")
+
+    class Flaky(io.BytesIO):
+        calls = 0
+
+        def _tick(self):
+            Flaky.calls += 1
+            if Flaky.calls - 1 == at:
+                raise exc("the caller's file fails at call %d" % (Flaky.calls - 1))
+
+        def readline(self, *a):
+            self._tick()
+            return io.BytesIO.readline(self, *a)
+
+        def read(self, *a):
+            self._tick()
+            return io.BytesIO.read(self, *a)
+
+        def __next__(self):
+            self._tick()
+            return io.BytesIO.__next__(self)
+    try:
+        with warnings.catch_warnings(record=True):
+            warnings.simplefilter("always")
+            if kind == 3:                     # early EOF: the text stops inside the relation field
+                cut = text.index(field) + len(field) + 2 + len(value) // 2
+                src = io.BytesIO(text[:cut].encode("utf-8"))
+            else:
+                src = gen(kind == 1) if kind < 2 else Flaky(text.encode("utf-8"))
+            if (k >> 6) % 2:
+                o = next(iter(cls.iter_paragraphs(src, use_apt_pkg=False)))
+            else:
+                o = cls(src)
+            o.relations[field.lower()]
+        key = "early_eof_paragraph_read" if kind == 3 else "faulted_paragraph_source_returned_normally"
+    except exc:
+        key = "faulted_paragraph_source_raised_the_caller's_exception"
+    except Exception as e:       # noqa: BLE001 -- counted, no verdict
+        key = "faulted_paragraph_source_raised_" + type(e).__name__
+    diag[key] = diag.get(key, 0) + 1
+
+
+def run_real(r_py, api=0, fault=None, diag=None):
     """str -> parse_relations -> str on the real class (api: which calling conventions).
-    Exceptions and warnings are observations."""
+    Exceptions and warnings are observations.  fault: a number -- the valid calls are preceded by a call
+    of PkgRelation.str on a faulting twin of r (faulted_str)"""
     out = {"s": None, "p": None, "s2": None, "warn": [], "exc": ""}
     stage = "PkgRelation.str"
+    if fault is not None:
+        out["faulted"] = faulted_str(r_py, fault, diag)
     with warnings.catch_warnings(record=True) as w:
         warnings.simplefilter("always")
         try:
@@ -719,6 +914,8 @@ def mixin_leg(r_py, s, k, diag):
     cls_name, field, form, form2, align = mixin_plan(k)
     notes, notes2 = [], []
     where = "%s(%s input).relations[%r] for %s: %s" % (cls_name, form, spell(field, k), field, ab(s))
+    if k % 3 == 0 and len(s) < 20000:
+        faulted_paragraph(cls_name, field, s, k >> 3, diag)     # then the ordinary leg, in the same process
     try:
         with warnings.catch_warnings(record=True) as w:
             warnings.simplefilter("always")
@@ -800,6 +997,14 @@ def where_differs(got, want, path="result"):
 
 
 def judge(r_py, o):
+    """verdict observables of the property (_judge); says when the calls came right after a faulted one"""
+    msg = _judge(r_py, o)
+    if msg and o.get("faulted"):
+        msg += " -- these calls came right after PkgRelation.str on a faulting twin of r (%s): a failed call must leave nothing behind" % o["faulted"]
+    return msg
+
+
+def _judge(r_py, o):
     """verdict observables of the property; the expected values are TLC's (Inverse: the parse is the
     structure itself; NoWarning; Stable)"""
     if o["exc"]:
@@ -1094,7 +1299,7 @@ def describe_edit(e, conc):
             "rev": "%s.reverse()"}[e["op"]] % ((at,) if e["op"] in ("append", "rev") else (at, e["k"] - 1))
 
 
-def run_edits(start_py, edits, trail_abs, conc, api=0, style=0, each=True, first=None):
+def run_edits(start_py, edits, trail_abs, conc, api=0, style=0, each=True, first=None, diag=None, salt=0):
     """the history of PkgRelationEdit on the real class: format and parse the start structure, apply the edits to
     the PARSED objects, and -- after every edit (each) or after the last one -- format / parse / format what the
     caller now holds.  Expected structures are TLC's (trail_abs[n], built independently of the live object).
@@ -1117,7 +1322,7 @@ def run_edits(start_py, edits, trail_abs, conc, api=0, style=0, each=True, first
         if live != want:
             return "after result = parse_relations(%s): %s: the structure the caller holds is %s, specification (ApplyEdit): %s" % (
                 ab(s), "; ".join(done), ab(live), ab(want)), s
-        oe = run_real(live, api + n)
+        oe = run_real(live, api + n, fault=salt + 5 * n if (style + n) % 2 == 0 else None, diag=diag)
         m = judge(want, oe)
         if m:
             return "result = parse_relations(%s); %s; now r = result = %s: %s" % (ab(s), "; ".join(done), ab(want, 300), m), oe["s"]
@@ -1194,7 +1399,7 @@ def check_case(ctx, rel_abs, codes, conc, diag, with_copy=True, history=True, or
     variants of the same structure"""
     from debian.deb822 import PkgRelation
     r_py = build(rel_abs, conc, order=order)
-    o = run_real(r_py, api)
+    o = run_real(r_py, api, fault=(order if order is not None else 0) + 121 * len(codes) + 7 * api if (api + len(codes)) % 3 == 0 else None, diag=diag)
     msg = judge(r_py, o)
     if msg is None and mixin is not None:
         msg = mixin_leg(r_py, o["s"], mixin, diag if diag is not None else {})
@@ -1698,16 +1903,17 @@ def _replay_edit(line):
            ("canonical", "ordinary")[(hs >> 3) % 2]
     conc = Conc.draw(rng, edit_conc_need(c), canonical=mode == "canonical", stress=mode == "boundary lengths")
     order, api, style, each = (hs >> 4) % len(KEY_ORDERS), (hs >> 2) % API_VARIANTS, (hs >> 5) % EDIT_STYLES, (hs >> 7) % 2 == 0
-    msg, s = run_edits(build(c["start"], conc, order=order), c["edits"], c["trail"], conc, api, style, each)
+    diag = {}
+    msg, s = run_edits(build(c["start"], conc, order=order), c["edits"], c["trail"], conc, api, style, each, diag=diag, salt=hs & 0xffffff)
     drift = None
     if msg is None and s != tokens_to_text(c["tokens"], conc):
         drift = "formatter writes %r for an edited structure, Format predicts %r (blank details are not part of the property)" % (
             s, tokens_to_text(c["tokens"], conc))
     out = {"h": h, "levels": [e["lv"] + "." + e["op"] for e in c["edits"]], "n": len(c["edits"]), "each": each,
-           "msg": None, "case": None, "drift": drift, "sample": None}
+           "msg": None, "case": None, "drift": drift, "sample": None, "diag": diag}
     if msg:
         out["msg"] = "[in-place edits] " + msg
-        out["case"] = dict(c, kind="edit", conc=conc.to_json(), order=order, api=api, style=style, each=each)
+        out["case"] = dict(c, kind="edit", conc=conc.to_json(), order=order, api=api, style=style, each=each, salt=hs & 0xffffff)
     elif h % 499 == 0:
         out["sample"] = "CASE of PkgRelationEdit: result = parse_relations(%r); %s -> str(result) = %r parses back to the edited structure, no warning, same string again" % (
             PkgRelation_str_of(c["start"], conc), "; ".join(describe_edit(e, conc) for e in c["edits"]), s)
@@ -1722,12 +1928,14 @@ def PkgRelation_str_of(rel_abs, conc):
         return "<%s>" % type(e).__name__
 
 
-def replay_edit_cases(ctx, lines, workers):
+def replay_edit_cases(ctx, lines, workers, diag_into):
     per, failing, drifts, samples = {}, [], set(), {}
     n = nseq = 0
     for res in workers.imap_unordered(_replay_edit, lines, chunksize=40):
         n += 1
         nseq += res["each"]
+        for k, c in res["diag"].items():
+            diag_into[k] = diag_into.get(k, 0) + c
         for lv in res["levels"]:
             per[lv] = per.get(lv, 0) + 1
         ctx.distinct.add(("edit", res["h"]))
@@ -1985,7 +2193,7 @@ def record(r_py, stats=None):
                 live = call_parse(o["s"], api + 1)
                 stage = "an in-place edit of the parsed structure"
                 edits = gen_edits(rng, live, conc, rng.choice((1, 1, 2, 3, 4)))
-            oe = run_real(live, api + 2)
+            oe = run_real(live, api + 2, fault=k >> 3 if k % 2 else None, diag=stats)
             if oe["exc"]:
                 raise Malformed(oe["exc"])
             trace["ed"] = {"es": edits, "live": abstract(live, conc), "t": tokenize(oe["s"], conc), "p": abstract(oe["p"], conc),
@@ -2254,6 +2462,7 @@ def make_traces(ctx, n, nprobe, quick):
         if count:
             sizes["%s x%d" % (lv, count)] = sizes.get("%s x%d" % (lv, count), 0) + 1
     ctx.extra["recorded_long_lists"] = dict(sorted(sizes.items()))
+    ctx.extra["recorded_faulted_calls"] = {k: stats.pop(k) for k in sorted(stats) if k.startswith(("faulted_", "early_eof"))}
     ctx.extra["recorded_input_forms"] = stats
     for _ in range(nprobe):
         try:
@@ -2377,7 +2586,7 @@ def _run_parallel(ctx, quick, cfg, mc_dir, workers, ccfg):
         if ncount != rc.distinct:
             raise core.MachineryError("TLC found %d long-list states but %d CASE lines were read" % (rc.distinct, ncount))
         ctx.traces += ncount
-        nedit = replay_edit_cases(ctx, follow_lines(edit_dir, lambda: not f_edit.done()), workers)
+        nedit = replay_edit_cases(ctx, follow_lines(edit_dir, lambda: not f_edit.done()), workers, diag)
         re_ = f_edit.result()
         shutil.rmtree(edit_dir, ignore_errors=True)
         if re_.violated:
@@ -2413,7 +2622,7 @@ def replay(ctx, case):
         return msg
     if case["kind"] == "edit":
         msg, _ = run_edits(build(case["start"], conc, order=case.get("order")), case["edits"], case["trail"], conc,
-                           case.get("api", 0), case.get("style", 0), case.get("each", True))
+                           case.get("api", 0), case.get("style", 0), case.get("each", True), salt=case.get("salt", 0))
         return "[in-place edits] " + msg if msg else None
     if case["kind"] == "trace":
         r_py = build(case["abstract"], conc)
